@@ -84,7 +84,7 @@ if os.environ.get('DIFF3'):
         return [ir.describe(ir.node(i), int(os.environ.get('DEPTH', '3'))) for i in n.a[1:]]
     if oi: print('first impl-only', ir.node(oi[0]).a[0], leafargs(ir.node(oi[0])))
     if os_: print('first spec-only', ir.node(os_[0]).a[0], leafargs(ir.node(os_[0])))
-def firstdiff(x, y, d=0, maxd=40):
+def firstdiff(x, y, d=0, maxd=400):
     pad = '  ' * d
     if x is y: return False
     if d > maxd: print(pad, '...'); return True
